@@ -1,0 +1,33 @@
+//go:build verif
+
+package nilness
+
+import (
+	"slices"
+	"sync"
+
+	"honnef.co/go/tools/go/ir"
+)
+
+// Verification hook: records, per call instruction, the callee result nilness that impl used when it
+// analysed the caller (the callee's exported fact, its freshly computed result, or the bail-out default
+// when recursion is broken). The external harness replays the analysis in a model with exactly these
+// assumptions and checks separately that each assumption is backed by the callee's own fact.
+var (
+	verifMu      sync.Mutex
+	verifCallees = map[*ir.Call][]ValueNilness{}
+)
+
+func verifCallee(call *ir.Call, rets []ValueNilness) {
+	verifMu.Lock()
+	verifCallees[call] = slices.Clone(rets)
+	verifMu.Unlock()
+}
+
+// VerifCalleeFact returns what verifCallee recorded for call.
+func VerifCalleeFact(call *ir.Call) ([]ValueNilness, bool) {
+	verifMu.Lock()
+	defer verifMu.Unlock()
+	r, ok := verifCallees[call]
+	return r, ok
+}
